@@ -104,12 +104,15 @@ func BuildSpec(wl scen.Workload, lay LayoutSpec) *refmcap.FileSpec {
 	}
 	unkTop := map[int][]LayUnk{}
 	unkChunk := map[int][]LayUnk{}
+	unkChunkEnd := map[int][]LayUnk{} // keyed by segment index: appended as the last records of that segment's chunk
 	for _, u := range lay.Unknown {
 		switch u.Where {
 		case "top":
 			unkTop[u.At] = append(unkTop[u.At], u)
 		case "chunk":
 			unkChunk[u.At] = append(unkChunk[u.At], u)
+		case "chunk_end":
+			unkChunkEnd[u.At] = append(unkChunkEnd[u.At], u)
 		}
 	}
 	emptyBefore := map[int]bool{}
@@ -117,13 +120,16 @@ func BuildSpec(wl scen.Workload, lay LayoutSpec) *refmcap.FileSpec {
 		emptyBefore[e] = true
 	}
 	var cur *refmcap.ChunkSpec
+	segIdx, inSeg := 0, 0
 	flush := func() {
 		if cur != nil {
+			for _, u := range unkChunkEnd[segIdx] {
+				cur.Items = append(cur.Items, refmcap.Item{Op: u.Op, Raw: unkBody(u.Op, u.Len)})
+			}
 			fs.Items = append(fs.Items, refmcap.Item{Op: refmcap.OpChunk, Chunk: cur})
 			cur = nil
 		}
 	}
-	segIdx, inSeg := 0, 0
 	seg := func() LaySeg {
 		if segIdx < len(lay.Segs) {
 			return lay.Segs[segIdx]
@@ -310,11 +316,13 @@ func DrawLayout(t *rapid.T, wl scen.Workload, keepIndexed bool, decorate bool) L
 			nUnk = 1
 		}
 		for i := 0; i < nUnk; i++ {
-			u := LayUnk{Where: pick(t, "unk_where", "top", "chunk", "summary"), Op: byte(rapid.IntRange(0x10, 0xff).Draw(t, "unk_op")),
+			u := LayUnk{Where: pick(t, "unk_where", "top", "chunk", "chunk_end", "summary"), Op: byte(rapid.IntRange(0x10, 0xff).Draw(t, "unk_op")),
 				Len: pick(t, "unk_len", 0, 0, 1, 9, 40, 300)}
 			switch u.Where {
 			case "summary":
 				u.At = rapid.IntRange(0, len(lay.SummaryOrder)).Draw(t, "unk_group")
+			case "chunk_end":
+				u.At = rapid.IntRange(0, max(0, len(lay.Segs)-1)).Draw(t, "unk_seg")
 			default:
 				u.At = rapid.IntRange(0, max(0, nData-1)).Draw(t, "unk_at")
 				if u.Where == "top" && rapid.IntRange(0, 5).Draw(t, "unk_end") == 0 {
@@ -462,6 +470,42 @@ func checkReaders(img []byte, c *model.Content, indexed bool, del scen.Delivery,
 	}
 	if d := model.DiffSeq(c.Metadata, scan.Metadata); d != "" {
 		return "scan", "content", "metadata callback: " + d
+	}
+	// ---- default options (index on, file order): index or fall back, never fewer ------
+	mixed := false
+	if rf, err := refmcap.Decode(img, refmcap.DecodeOptions{}); err == nil {
+		chunksSeen, topMsgs := 0, 0
+		for _, r := range rf.Records {
+			switch r.Op {
+			case refmcap.OpChunk:
+				chunksSeen++
+			case refmcap.OpMessage:
+				topMsgs++
+			}
+		}
+		// chunk records together with messages outside any chunk: legal, but not a
+		// partition of the messages into chunks - an index cannot see the latter
+		mixed = chunksSeen > 0 && topMsgs > 0
+	}
+	if mixed {
+		st.Inc("probe.mixed_chunked_and_unchunked_skipped_default_read")
+	} else {
+		dr := drive.ReadMessages(simdisk.NewSeekSource(img, del, nil), drive.ReadSpec{UseIndex: true, OmitUsingIndex: true})
+		*evals++
+		if dr.Panic != nil {
+			return "default_read", "panic", dr.Panic.String()
+		}
+		switch dr.Terminal() {
+		case "eof":
+			if d := model.DiffSeq(c.Messages, dr.Msgs); d != "" {
+				return "default_read", "content", "Messages() with default options: " + d
+			}
+		default:
+			if indexed {
+				return "default_read", "error", fmt.Sprintf("Messages() with default options ended with %s: %v", dr.Terminal(), dr.FirstErr())
+			}
+			st.Inc("probe.default_read_error_on_unindexed_file")
+		}
 	}
 	// ---- indexed ---------------------------------------------------------------
 	if indexed {
